@@ -121,14 +121,23 @@ type c09Lane struct {
 	upAddr, slowAddr string
 	pp               atomic.Bool // PROXY option of the case being played
 	slow             atomic.Bool // the case being played uses the slow upstream
+	dead, deadPP     atomic.Bool // refused-dial case: the first instance is dead and has this pxyproto option
+	lookups          atomic.Int32
+	deadAddr         string // an address nobody listens on
 	servers          []*Server
 	addr             map[string]string
 }
 
+// target is the lane's Lookup function: the instance of the service the picker hands out.  In a
+// refused-dial case the first instance handed out is one nobody listens on, with the opposite
+// pxyproto option; every further lookup yields the live instance.
 func (l *c09Lane) target(string) *route.Target {
 	host := l.upAddr
 	if l.slow.Load() {
 		host = l.slowAddr
+	}
+	if l.dead.Load() && l.lookups.Add(1) == 1 {
+		return &route.Target{URL: &url.URL{Scheme: "tcp", Host: l.deadAddr}, ProxyProto: l.deadPP.Load()}
 	}
 	return &route.Target{URL: &url.URL{Scheme: "tcp", Host: host}, ProxyProto: l.pp.Load()}
 }
@@ -143,6 +152,13 @@ func c09NewLane(cert tls.Certificate) (*c09Lane, error) {
 		l.close()
 		return nil, err
 	}
+	dl, deadAddr, err := verifx.ListenFree()
+	if err != nil {
+		l.close()
+		return nil, err
+	}
+	dl.Close() // from now on a dial to it is refused
+	l.deadAddr = deadAddr
 	for path, h := range map[string]Handler{
 		"tcp": &Proxy{Lookup: l.target},
 		"sni": &SNIProxy{Lookup: l.target},
@@ -254,6 +270,9 @@ func TestVerifC09(t *testing.T) {
 				env := &verifx.TunnelEnv{ProxyAddr: addr, UpL: lane.upL, Late: c09Late, Before: func(c *verifx.TunnelCase) {
 					lane.pp.Store(c.Sc.Proxy == 1)
 					lane.slow.Store(c.Sc.USlow == 1)
+					lane.dead.Store(c.Sc.Dead == 1)
+					lane.deadPP.Store(c.Sc.DeadPP == 1)
+					lane.lookups.Store(0)
 				}}
 				if c.Sc.USlow == 1 {
 					env.UpL = lane.slowL
